@@ -160,7 +160,8 @@ def run_case(case, ctx):
             nonident = start > 0 or nsamps < case["N"]
         elif t == "extract_chans":
             chans = rng.choice(nch, size=int(rng.integers(1, min(nch, 5) + 1)), replace=False)
-            names = fil.extract_chans(chans, os.path.join(d, "oc"), **rkw)
+            bs = int(rng.choice([200, 1, 2]))  # small batches exercise the per-batch bookkeeping
+            names = fil.extract_chans(chans, os.path.join(d, "oc"), batch_size=bs, **rkw)
             if len(names) != len(chans):
                 ctx.violation("file-count:extract_chans", f"{len(names)} files for {len(chans)} channels", case)
                 return
@@ -172,8 +173,9 @@ def run_case(case, ctx):
             cps = int(rng.choice(cps_opts))
             nb = int(rng.integers(1, nch // cps + 1))
             chanstart = int(rng.integers(0, nch - nb * cps + 1))
-            names = fil.extract_bands(chanstart, nb * cps, cps, os.path.join(d, "ob"), **rkw)
-            case = dict(case, chanstart=chanstart, nbands=nb, chanpersub=cps)
+            bs = int(rng.choice([200, 1, 2, 3]))
+            names = fil.extract_bands(chanstart, nb * cps, cps, os.path.join(d, "ob"), batch_size=bs, **rkw)
+            case = dict(case, chanstart=chanstart, nbands=nb, chanpersub=cps, batch_size=bs)
             if len(names) != nb:
                 ctx.violation("file-count:extract_bands", f"{len(names)} files returned for {nb} bands (chanstart={chanstart}, nchans={nb*cps}, chanpersub={cps}, file nchans={nch})", case)
                 return
